@@ -422,6 +422,101 @@ pub fn machine_level(ctx: &Ctx) {
     ctx.note("machine_level_programs", json!(programs.iter().map(|p| p.0).collect::<Vec<_>>()));
 }
 
+/// Block-size family: the tape reads its file through a 128-byte window; every relation of a
+/// block's total size to that window (1, 2, 127..130, 255..258, 383..385, 512) as first and as second
+/// block. Fixed 16-T steps (the step-partition search above covers the time axis on the named tapes):
+/// the complete waveform must decode strictly to exactly the blocks.
+pub fn size_family(ctx: &Ctx, thorough: bool) {
+    let firsts: Vec<usize> = if thorough { vec![1, 2, 127, 128, 129, 255, 256, 257, 384] } else { vec![1, 128, 129, 256] };
+    let seconds: Vec<usize> = vec![1, 2, 127, 128, 129, 130, 255, 256, 257, 258, 383, 384, 385, 512];
+    let jobs: Vec<(usize, usize)> = firsts.iter().flat_map(|a| seconds.iter().map(move |b| (*a, *b))).collect();
+    par_for(jobs.len(), 2, |j| {
+        let (a, b) = jobs[j];
+        let mk = |n: usize, salt: usize| -> Vec<u8> { (0..n).map(|i| if i == 0 { 0xFF } else { (i * 7 + salt * 13 + 3) as u8 }).collect() };
+        let blocks = vec![mk(a, 1), mk(b, 2)];
+        let image = AssetData::Static(Box::leak(tap_image(&blocks).into_boxed_slice()));
+        let total: u64 = blocks.iter().map(|x| 8063 * PILOT + x.len() as u64 * 16 * ONE + 2 * SECOND).sum::<u64>() + SECOND;
+        let case = json!({"kind":"prepass","tape":format!("sizes-{}-{}", a, b),"blocks":blocks.iter().map(|x| crate::vcore::hex(x)).collect::<Vec<_>>()});
+        ctx.add_traces(1);
+        match build_chain(&image, 16, total * 2) {
+            Ok(c) if c.ended => match decode(&c.pulses, true) {
+                Ok(d) if d.blocks == blocks => ctx.outcome(0x512E_0000 ^ (a as u64) << 12 ^ b as u64),
+                Ok(d) => ctx.violation(
+                    &format!("C11:block-sizes:decoded-blocks-differ:{}", if b % 128 == 0 || a % 128 == 0 { "multiple-of-128" } else { "other" }),
+                    &format!("tape with blocks of {} and {} bytes: the played waveform decodes to {} block(s) of lengths {:?}; first difference in block {:?}", a, b, d.blocks.len(), d.blocks.iter().map(|x| x.len()).collect::<Vec<_>>(), d.blocks.iter().zip(blocks.iter()).position(|(x, y)| x != y)),
+                    case,
+                ),
+                Err(e) => ctx.violation("C11:block-sizes:undecodable", &format!("tape with blocks of {} and {} bytes: {}", a, b, e), case),
+            },
+            Ok(_) => ctx.violation("C11:block-sizes:never-ends", &format!("tape with blocks of {} and {} bytes does not stop by itself within twice its nominal duration", a, b), case),
+            Err(e) => ctx.violation("C11:block-sizes:error", &format!("tape with blocks of {} and {} bytes: {}", a, b, e), case),
+        }
+    });
+    ctx.note("block_size_family", json!({"first": firsts, "second": seconds}));
+}
+
+/// The EAR input is bit 6 of EVERY even port, whatever the high address byte selects: while the tape
+/// plays, at the first edges of the pilot (both levels) an `IN A,(C)` from 256 high bytes x low bytes
+/// {FE, 00, 7E, FC} must show the tape level in bit 6.
+pub fn ear_on_every_even_port(ctx: &Ctx) {
+    use crate::rig::{Opts, RegsView};
+    for m128 in [false, true] {
+        let mut o = Opts::machine(m128);
+        o.sound = false;
+        let mut e = rig::emu_stepping(&o);
+        rig::poke(&mut e, 0x8000, &[0x18, 0xFE]);
+        let mut r = RegsView::default();
+        r.pc = 0x8000;
+        r.sp = 0xBF00;
+        rig::set_regs(e.verif_cpu(), &r);
+        let blocks = vec![std_block(0xFF, &[0xA5])];
+        if e.load_tape(rustzx_core::host::Tape::Tap(rig::VAsset::new(tap_image(&blocks)))).is_err() {
+            return;
+        }
+        e.play_tape();
+        let level = |e: &rig::Emu| e.verif_tape_state().map(|s| s.curr_bit).unwrap_or(false);
+        let mut seen = [0u64; 2];
+        let mut lows = [0xFEu8, 0x00, 0x7E, 0xFC].iter().cycle();
+        'edges: for _ in 0..8 {
+            // run to the next edge
+            let l0 = level(&e);
+            let mut guard = 0;
+            while level(&e) == l0 {
+                e.verif_cpu().regs.set_pc(0x8000);
+                rig::step(&mut e);
+                guard += 1;
+                if guard > 100_000 {
+                    break 'edges;
+                }
+            }
+            let low = *lows.next().unwrap();
+            for h in 0..=255u16 {
+                let port = h << 8 | low as u16;
+                let before = level(&e);
+                let v = rig::cpu_in(&mut e, 0x8100, port);
+                let after = level(&e);
+                if before != after {
+                    continue; // an edge fell into the read
+                }
+                seen[before as usize] += 1;
+                ctx.add_eval(1);
+                if (v & 0x40 != 0) != before {
+                    ctx.violation(
+                        &format!("C11:ear-port:{}:{}", if m128 { "128k" } else { "48k" }, if h == 0xFF { "no-half-row-selected" } else if h == 0x00 { "all-half-rows-selected" } else { "other" }),
+                        &format!("{} machine, tape playing with EAR level {}: IN from even port {:04x} returns {:02x} (bit 6 = {})", if m128 { "128K" } else { "48K" }, before as u8, port, v, (v >> 6) & 1),
+                        json!({"kind":"ear-port","m128":m128,"port":port}),
+                    );
+                    break;
+                }
+            }
+        }
+        if seen[0] == 0 || seen[1] == 0 {
+            ctx.violation("C11:ear-port:vacuous", "the EAR-port family did not see both tape levels (harness)", json!({"kind":"ear-port","m128":m128}));
+        }
+        ctx.outcome(0xEA00 ^ m128 as u64);
+    }
+}
+
 pub fn quick_tapes() -> Vec<(&'static str, Vec<Vec<u8>>)> {
     vec![
         ("data2", vec![std_block(0xFF, &[0xA5])]),
@@ -457,8 +552,10 @@ pub fn run(tier: Tier, seed: u64, replay: Option<String>) -> i32 {
     ctx.note("step_alphabet", json!("process_clocks(s) for every s in 0..=16 from every reachable (tape state, time since last edge)"));
     crate::checks::c10::realtime_vs_fast(&ctx);
     machine_level(&ctx);
+    size_family(&ctx, tier.is_thorough());
+    ear_on_every_even_port(&ctx);
     ctx.finish(
-        "component level: for each tape, every reachable state of the real Tap under all partitions of time into process_clocks steps 0..=16 (search decomposed at state-machine reload events; convergence of all paths at each reload is re-checked on every exit transition); oracle: RefTape decoder on the pulse list (pilot counts, sync, MSB-first bits, pause, decoded bytes == TAP blocks) and nominal <= pulse <= nominal+32 on every edge transition. distinct = distinct (pulse kind, extreme duration) and waveform outcomes",
+        "component level: for each tape, every reachable state of the real Tap under all partitions of time into process_clocks steps 0..=16 (search decomposed at state-machine reload events; convergence of all paths at each reload is re-checked on every exit transition); oracle: RefTape decoder on the pulse list (pilot counts, sync, MSB-first bits, pause, decoded bytes == TAP blocks) and nominal <= pulse <= nominal+32 on every edge transition; block-size family: two-block tapes over every relation of the block sizes to the 128-byte read window (1..512 bytes) played in fixed steps and decoded strictly; machine level: idle/polling programs over contended and uncontended bus cycles with the EAR level sampled after every instruction, real-time ROM loads against RefLdBytes, and bit 6 of IN from 256 high bytes x 4 even low bytes at both tape levels. distinct = distinct (pulse kind, extreme duration) and waveform outcomes",
         true,
         &["hook H3: Tap clone + verif_state (all fields)", "time is measured at call ends (when a reader could first observe the level)"],
     )
@@ -472,6 +569,12 @@ fn replay_case(ctx: &Ctx, path: &str) -> i32 {
         .map(|a| a.iter().map(|x| crate::vcore::unhex(x.as_str().unwrap_or(""))).collect())
         .unwrap_or_default();
     println!("replay: tape blocks {:?}", blocks.iter().map(|b| crate::vcore::hex(b)).collect::<Vec<_>>());
+    if case["kind"] == "ear-port" {
+        ear_on_every_even_port(ctx);
+        let n = ctx.violation_classes();
+        println!("replay: {} violation class(es) reproduced", n);
+        return (n > 0) as i32;
+    }
     if case["kind"] == "realtime" {
         return crate::checks::c10::replay_realtime(ctx, case);
     }
